@@ -21,6 +21,7 @@ NAME_STYLES = [
     lambda n: ["a b", "a.b", "Z", "z", "_", "é", "0", "~", "a", "B"][:n],
     lambda n: ["a", "ab", "bc", "c", "b", "abc", "ca", "1", "12", "2"][:n],     # prefix-related names: different sets of names can concatenate to the same string
     lambda n: ["", " ", "x", "  ", "\t", "y", " x", "x ", "0", "None"][:n],         # empty and blank names, names that differ only by surrounding blanks
+    lambda n: ["a", "b-c", "a-b", "c", "v1", "v01", "x7y", "x07y", "1", "01"][:n],  # separators inside names (joined labels collide), numbers that differ by leading zeros
 ]
 def confusable_sets(names, maxsize=3):
     """groups of different vertex-id sets whose sorted names concatenate to the same string (keys built by joining names confuse them)"""
